@@ -89,7 +89,7 @@ def _ref(objs, tags, f):
     return None, [], []
 
 
-def oracle_soh(run):
+def _oracle_soh_pass(run, hist, multi):
     """C17 on the raw trace, independent of the Lean model:
     * every call is exactly one bracket of mapLock, brackets of different threads never overlap, nothing is held at return;
     * taking the calls in the order of their lock acquisitions, every result equals the result of a reference
@@ -102,10 +102,13 @@ def oracle_soh(run):
     cur = {}
     held = {}
     dead = set()
+    soft = []          # result mismatches w.r.t. "linearised at the (first) lock acquisition"
+    hist_clock = []    # one entry per call / return, in trace order (real-time order of the history)
     for tid, t in events(run):
         k = t[0]
         if k == "call":
-            cur[tid] = dict(f=t[1:], locks=0, unlocks=0, exp=None, calls=[], seen=[])
+            cur[tid] = dict(f=t[1:], locks=0, unlocks=0, exp=None, calls=[], seen=[], start=len(hist_clock))
+            hist_clock.append(0)
             if t[1] in ("add", "addt"):
                 held.setdefault(tid, []).append(int(t[3]))
         elif k == "mlk":
@@ -120,7 +123,10 @@ def oracle_soh(run):
                 return "the destructor locked mapLock again after it began destroying the stored objects"
             if c["f"][0] != "dtor":
                 if c["locks"] > 1:
-                    return "%s locked mapLock twice" % " ".join(c["f"])
+                    # a call made of several critical sections: not by itself a failure of "behaves as an atomic map";
+                    # the results decide (linearisability search in oracle_soh)
+                    multi.append("%s locked mapLock twice" % " ".join(c["f"]))
+                    continue
                 if c["f"][0] in ("add", "addt"):
                     held[tid].remove(int(c["f"][2]))
                 exp, ids, calls = _ref(objs, tags, c["f"])
@@ -147,13 +153,16 @@ def oracle_soh(run):
                 objs.clear()
                 tags.clear()
                 continue
-            if c["locks"] != 1 or c["unlocks"] != 1:
-                return "%s: %d acquisitions / %d releases of mapLock (the call must be one critical section)" % (
-                    what, c["locks"], c["unlocks"])
             got = "threw" if k == "exc" else t[3]
+            hist.append(dict(tid=tid, f=c["f"], got=got, start=c["start"], end=len(hist_clock)))
+            hist_clock.append(1)
+            if c["locks"] != c["unlocks"]:
+                return "%s: %d acquisitions / %d releases of mapLock" % (what, c["locks"], c["unlocks"])
+            if c["locks"] == 0:
+                return "%s never took mapLock" % what
             if got != c["exp"]:
-                return "%s returned %s, the reference map model gives %s" % (what, got, c["exp"])
-            if c["seen"] != c["calls"]:
+                soft.append("%s returned %s, the reference map model gives %s" % (what, got, c["exp"]))
+            elif c["seen"] != c["calls"] and c["locks"] == 1:
                 return "%s invoked the predicate on %s, key-order scan gives %s" % (what, c["seen"], c["calls"])
             if k == "ret" and t[3] not in ("true", "false", "()", "null"):
                 ids = [int(x) for x in t[3].strip("[]").split(",") if x]
@@ -189,7 +198,62 @@ def oracle_soh(run):
                 if i in l:
                     return "object %d destroyed while thread %d holds a reference to it" % (i, u)
             dead.add(i)
-    return None
+    return ("soft", soft[0]) if soft else None
+
+
+def _linearisable(hist):
+    """is there a total order of the completed calls, consistent with real time (a call that returned before another was
+    invoked comes first), in which the reference map model gives every observed result?"""
+    import copy
+    n = len(hist)
+    if n > 40:
+        return True     # out of reach for the search: do not claim a failure
+    seen_states = set()
+
+    def key(done, objs, tags):
+        return (done, tuple(sorted(objs.items())), tuple(sorted((k, tuple(v)) for k, v in tags.items())))
+
+    def go(done, objs, tags):
+        if len(done) == n:
+            return True
+        kk = key(done, objs, tags)
+        if kk in seen_states:
+            return False
+        seen_states.add(kk)
+        pending = [i for i in range(n) if i not in done]
+        first_end = min(hist[i]["end"] for i in pending)
+        for i in pending:
+            if hist[i]["start"] > first_end:
+                continue        # some pending call returned before this one was invoked
+            o2, t2 = dict(objs), {k: list(v) for k, v in tags.items()}
+            if hist[i]["f"][0] == "dtor":
+                o2.clear()
+                t2.clear()
+                exp = hist[i]["got"]
+            else:
+                exp = _ref(o2, t2, hist[i]["f"])[0]
+            if exp == hist[i]["got"] and go(done | frozenset([i]), o2, t2):
+                return True
+        return False
+
+    return go(frozenset(), {}, {})
+
+
+def oracle_soh(run):
+    """C17 on the raw trace, independent of the Lean model (see _oracle_soh_pass).  Calls made of ONE critical section are
+    linearised at their lock acquisition and compared with the reference map at once.  When some call consists of several
+    critical sections the result complaints are decided by a search for ANY linearisation of the observed results."""
+    hist, multi = [], []
+    r = _oracle_soh_pass(run, hist, multi)
+    if r is None:
+        return None
+    if not (isinstance(r, tuple) and r[0] == "soft"):
+        return r
+    if not multi:
+        return r[1]
+    if _linearisable(hist):
+        return None
+    return "%s; %s — and no order of the completed calls explains the observed results (not an atomic map)" % (multi[0], r[1])
 
 
 SOH_TRUST = ["Model/SOH.lean is a hand-written model of SearchableObjectHolder.hpp: sequential specification over two sorted "
